@@ -603,6 +603,52 @@ func scenarioCloseFault(withStacks bool) {
 	scenarioResult("closefault", sl, "", "")
 }
 
+// scenarioBindFault — "every control call returns", also after the bind refused an operation:
+// Up with a failing bind.Open, then (device up) a fwmark change that bind.SetMark refuses.  Every
+// later control call (IpcGet, listen_port, fwmark again, Down, Up, Close) must still return, and a
+// data send must not be parked on a lock the failed call left behind.
+func scenarioBindFault(withStacks bool) {
+	sl := &stepLog{}
+	a := cosim.NewPeer("A", "192.0.2.7:5555", "10.0.0.2/32")
+	w, err := cosim.NewWorld(cosim.Config{Up: false}, true, a)
+	if err != nil {
+		panic(err)
+	}
+	done := make(chan struct{})
+	go func() {
+		defer close(done)
+		w.Bind.OpenErr = errors.New("sim: open refused")
+		e := w.Dev.Up()
+		sl.add("Up with bind.Open failing returned %v", e)
+		w.Bind.OpenErr = nil
+		_, e = w.Dev.IpcGet()
+		sl.add("IpcGet returned (err %v)", e)
+		e = w.Dev.Up()
+		sl.add("Up returned %v", e)
+		w.Bind.MarkErr = errors.New("sim: setmark refused")
+		e = w.Dev.IpcSet("fwmark=7\n")
+		sl.add("IpcSet fwmark=7 with bind.SetMark failing returned %v", e)
+		w.Bind.MarkErr = nil
+		_, e = w.Dev.IpcGet()
+		sl.add("IpcGet returned (err %v)", e)
+		e = w.Dev.IpcSet("fwmark=9\n")
+		sl.add("IpcSet fwmark=9 returned %v", e)
+		e = w.Dev.IpcSet("listen_port=4242\n")
+		sl.add("IpcSet listen_port returned %v", e)
+		e = w.Dev.Down()
+		sl.add("Down returned %v", e)
+		e = w.Dev.Up()
+		sl.add("Up returned %v", e)
+		w.Dev.Close()
+		sl.add("Close returned")
+	}()
+	select {
+	case <-done:
+	case <-time.After(5 * time.Second):
+	}
+	finishReplay("bindfault", sl, []chan struct{}{done}, 100*time.Millisecond, withStacks)
+}
+
 // replayF3d — Proofs.down_vs_setprivatekey_vs_sender_rekey_deadlocks (first met by the thorough
 // stress run with the sender; replayed here with the peer's RECEIVER, the only one of the
 // routines Peer.Stop joins that can be parked at a harness-owned point holding no device lock).
